@@ -145,10 +145,18 @@ func c14Judge(cell int, q, prefix, data string, hasData bool) []c14Finding {
 	if rejected || !hasData || prefix == "" || must {
 		return fs
 	}
-	return append(fs, c14Confine(cell, text, decoded, data, func(d string) (string, bool) {
+	cf := c14Confine(cell, text, decoded, data, func(d string) (string, bool) {
 		r := execOne(p, d, false)
 		return r.Out, r.Kind == tmplx.OK
-	})...)
+	})
+	for i := range cf {
+		// a '#' that only occurs as part of "&#" (an incomplete or invalid character reference) is a class of its own:
+		// the known finding there must not hide prefixes that spell out their '?' or '#'
+		if cf[i].clause == "query-not-fully-encoded" && cf[i].discr == "" && !strings.ContainsAny(strings.ReplaceAll(prefix, "&#", ""), "?#") {
+			cf[i].discr = "delimiter-only-in-character-reference"
+		}
+	}
+	return append(fs, cf...)
 }
 
 // c14Confine judges how data was interpolated after the (decoded) static prefix that is in effect.
@@ -239,7 +247,9 @@ func checkC14(r *core.Run) {
 	realistic := []string{"https://o/a/", "https://o/a/.", "https://o/a/%2e", "/p/", "/p/.", "//o/p/", "/p?q=", "/p?q=a&r=", "/p#f", "https://o/p?q=", "about:blank#", "/a/b/..", "/p/&amp;", "/p?a&amp;b=", "https://o/.&#37;2", "/p/&#x25;2", "/p/%2", "/p/%", "https://o/a/&#46;",
 		"&#x;/", "/&#x;", "&#;/", "&#2#", "&#9/", "/a&#9", "java&#9script:", "&#x9/", "/&#1",
 		// path prefixes spelled with character references (the raw text contains '#', ';', '&' although the URL has no query or fragment)
-		"/static&#47;", "/a&#x2f;b/", "https://o/&#x6a;s/", "/a&#47;", "/a/&#x2e;", "/p&#47;q&#63;r="}
+		"/static&#47;", "/a&#x2f;b/", "https://o/&#x6a;s/", "/a&#47;", "/a/&#x2e;", "/p&#47;q&#63;r=",
+		// schemes without "//": their query and fragment are query and fragment all the same
+		"mailto:a@b.example?subject=", "mailto:a@b.example?subject=x&amp;body=", "sms:+15550100?body=", "tel:+15550100#", "about:blank?q=", "ftp://h/p?q=", "MAILTO:a@b?cc=", "http:/p?q=", "https:p?q="}
 	nReal := len(realistic)
 	prefixes = append(prefixes, realistic...)
 	var data []string
